@@ -2,9 +2,17 @@
    Only statements, `exact`, Print Assumptions and non-vacuity examples live here.
    H is the expected 32-byte hash (SHA-256 itself is the `sha2` crate: trusted). *)
 From Coq Require Import List NArith ZArith.
-From AnyTLS Require Import Bytes Reader ReaderProg Auth ReaderProofs AuthProofs.
+From AnyTLS Require Import Bytes Reader ReaderProg Generated FactsParsers Auth ReaderProofs AuthProofs.
 Import ListNotations.
 Open Scope N_scope.
+
+(* premises of the model, re-read from the sources on every run: the hash is 32 bytes, it is compared as a
+   whole array with `!=`, and handle_connection propagates authenticate_client's result directly with
+   `.await?` before the session is built (no timeout/select wrapper, no branch that goes on without an Ok) *)
+Theorem C06_model_premises :
+  auth_hash_len = 32 /\ auth_compares_whole_arrays = true /\ auth_result_propagated_directly = true.
+Proof. exact (conj auth_hash_len_32 (conj auth_whole_array_comparison auth_gate_direct)). Qed.
+Print Assumptions C06_model_premises.
 
 (* accepted iff the first 32 bytes ARE the hash and the declared padding is completely there; what is
    left for frame parsing starts at the first byte after the padding, for every declared length *)
